@@ -169,7 +169,7 @@ class Shapes:
         key = repr(t)
         if key in self.cache:
             return self.cache[key]
-        if depth > 12 or key in self.stack:
+        if depth > 48 or key in self.stack:
             return ('opaque', 'recursive type ' + T.show(t))
         self.stack.append(key)
         try:
